@@ -236,6 +236,50 @@ pub fn child_main(seed: u64, n: usize, threads: usize) -> i32 {
     0
 }
 
+/// State carried from one build to the next on the same thread: the same batch is built on three fresh
+/// threads in forward, reverse and interleaved order; every case must give the same result each time.
+fn build_order_independence(ctx: &Ctx, st: &mut Stats) {
+    let mut cases: Vec<(Vec<String>, Settings)> = batch(ctx.seed() ^ 0x55, if ctx.thorough { 4000 } else { 600 });
+    for set in gen::shifted_run_sets() {
+        cases.push((set.clone(), Settings::new(0)));
+        cases.push((set, Settings::new(ESC)));
+    }
+    let n = cases.len();
+    let orders: Vec<Vec<usize>> = vec![(0..n).collect(), (0..n).rev().collect(), (0..n).map(|i| (i * 7919) % n).collect::<std::collections::BTreeSet<_>>().into_iter().rev().step_by(1).collect()];
+    let mut results: Vec<Vec<String>> = vec![];
+    for order in &orders {
+        let cases = &cases;
+        let r = std::thread::scope(|sc| {
+            sc.spawn(move || {
+                install_quiet_panic_hook();
+                let mut out = vec![String::new(); cases.len()];
+                for &i in order {
+                    out[i] = format!("{:?}", build(&cases[i].0, cases[i].1));
+                }
+                out
+            })
+            .join()
+            .unwrap_or_default()
+        });
+        results.push(r);
+    }
+    for i in 0..n {
+        st.evaluations += 1;
+        st.decided += 1;
+        st.count("build_order_comparisons");
+        let distinct: std::collections::BTreeSet<&String> = results.iter().filter_map(|r| r.get(i)).collect();
+        if distinct.len() > 1 {
+            let mut case = case_json(&cases[i].0, cases[i].1);
+            case["what"] = json!("build_order");
+            st.violation(
+                "depends_on_earlier_builds_on_the_thread",
+                format!("the same case gives {} different results depending on which builds ran before it on the thread: {:?}", distinct.len(), distinct.iter().take(2).collect::<Vec<_>>()),
+                case,
+            );
+        }
+    }
+}
+
 fn cross_process(ctx: &Ctx, st: &mut Stats) {
     let exe = std::env::current_exe().unwrap();
     let n = if ctx.thorough { 40_000 } else { 6_000 };
@@ -352,6 +396,7 @@ pub fn run(ctx: &Ctx) -> i32 {
     {
         let mut st = Stats::new();
         cross_process(ctx, &mut st);
+        build_order_independence(ctx, &mut st);
         ctx.run.merge(st);
     }
     let extra = if ctx.thorough { crate::sanitize::c10_legs(ctx) } else { json!({"tsan_leg": "thorough tier only", "miri_leg": "thorough tier only"}) };
